@@ -64,13 +64,15 @@ def handle (s : S) (i : Nat) (j : Json) : S × List Json :=
       let cancelled := okTx ["ts.spotCancel", "ts.perpCancel"] ord.spot ord.id
       let m0 : St := { pending := [(ord.key, 1)], amount := [(ord.key, ord.amount)], escrow := [(ord.key, s.prevBank.get (ord.escrow, ord.denom))],
                        owner := [(ord.key, ord.owner)] }
-      let market := marketOf st.obs ord
       -- an owner's update earlier in the same block changes the rate the execution compares with
       let rate := match (st.txs.filter (fun t => t.code == 0 && ["ts.spotUpdate", "ts.perpUpdate"].contains t.kind &&
                     ((fInt? t.f "id").getD (-1)).toNat == ord.id && (t.kind.startsWith "ts.spot") == ord.spot)).getLast? with
                   | some t => (fInt? t.f "rate").getD ord.rate
                   | none => ord.rate
       let ord := { ord with rate := rate }
+      -- the price an execution compared with is the one in force when ts.execute ran; when a feed follows it in the same
+      -- block that price is not in the observation (W: the witnessed outcome stands, the trigger clause is not judged)
+      let market := if feedAfterExecute then ord.rate else marketOf st.obs ord
       let op : Option Op :=
         if cancelled then some (.cancel ord.key ord.owner)
         else if !still then some (.execute ord.key ord.kind market ord.rate true 0 true)
